@@ -8,6 +8,7 @@ import Pycoin.Proofs.BIP32Text
 import Pycoin.Proofs.BIP32Coords
 import Pycoin.Proofs.BIP32Path
 import Pycoin.Proofs.SubpathsSpec
+import Pycoin.Proofs.BIP32Master
 /-!
 C09 — Hierarchical key derivation follows BIP32 and commutes with going public.  Property theorems
 (helper lemmas: `Proofs/BIP32*.lean`).
@@ -703,6 +704,53 @@ theorem C09_hwif_rt_secp256k1 (bf : Int) (tbl : List Pt) (m : Pt)
     C09_secp256k1_side_conditions.2.1 C09_secp256k1_side_conditions.2.2 net hmem n se hv hse hd hi ha
 
 end shipped
+
+/-! ## master key generation; the invalid case of CKD, counted -/
+
+section master
+open Pycoin.Curve WeierstrassCurve
+variable {g : Gen} [Good g.c]
+
+/-- **master_from_seed.** Whatever `BIP32Node.from_master_secret(seed)` (= `network.keys.bip32_seed`, for the BIP32, BIP49
+and BIP84 classes alike) returns is the BIP's master key generation for that seed, of any length:
+`I = HMAC-SHA512(Key = "Bitcoin seed", Data = seed)`, master secret key `parse256(I_L)`, master chain code `I_R`, depth 0,
+parent fingerprint `0x00000000`, child number 0 (`Spec.BIP32.masterKey`), public pair `k • G`.  In particular where the BIP
+declares the master key invalid (`parse256(I_L) = 0` or `≥ n`) no node is returned (the code raises; the differential op
+`bip32_master` and C18's `C18_seed_refuses` over the parser model show the exception is `InvalidSecretExponentError`,
+which `parse.bip32_seed` turns into `None`). -/
+theorem C09_master_from_seed (kind : Kind) (seed : Bytes) :
+    (∀ n, fromMasterSecret g kind seed = .ok n →
+      ∃ x, Spec.BIP32.master (mathCrypto g.c) seed = some x ∧ n.kind = kind ∧ n.secretExponent = some (x.k : Int) ∧
+        n.chainCode = x.c ∧ n.depth = 0 ∧ n.parentFingerprint = [0, 0, 0, 0] ∧ n.childIndex = 0 ∧
+        g.mul (x.k : Int) = .ok (some n.publicPair) ∧ 1 ≤ x.k ∧ x.k < g.c.n) ∧
+    (Spec.BIP32.master (mathCrypto g.c) seed = none → ∀ n, fromMasterSecret g kind seed ≠ .ok n) := by
+  refine ⟨fun n h => master_sound kind seed n h, fun hnone n h => ?_⟩
+  obtain ⟨x, hx, -⟩ := master_sound kind seed n h
+  rw [hnone] at hx; cases hx
+
+end master
+
+/-- **the retry branch, counted** (consequence (b) of `C09_ckd_retry_branch`).  Among the 2²⁵⁶ possible left halves `I_L` of
+an HMAC-SHA512 output, those for which CKD's first test `parse256(I_L) ≥ n` fires are exactly the images under `ser256` of the
+numbers `n ≤ v < 2²⁵⁶` — `ser256` is injective there, so there are exactly `2²⁵⁶ − n` of them.  For secp256k1
+`2²⁵⁶ − n < 2¹²⁹`, i.e. a fraction below `2⁻¹²⁷` of all `I_L`: under the ASSUMPTION that HMAC-SHA512 outputs are uniformly
+distributed (a property of the hash, not provable here) the retry branch — the only place where the code deviates from the
+BIP's "proceed with the next value for i", and where private and public derivation may disagree — is taken with probability
+below `2⁻¹²⁷` per derivation (the other trigger, child key 0, is one value of `I_L` in 2²⁵⁶ per parent key). -/
+theorem C09_ckd_invalid_count (n : Nat) :
+    (∀ IL : Bytes, IL.length = 32 →
+      (n ≤ Spec.BIP32.parse256 IL ↔ ∃ v, n ≤ v ∧ v < 2 ^ 256 ∧ IL = Spec.BIP32.ser256 v)) ∧
+    (∀ a b, a < 2 ^ 256 → b < 2 ^ 256 → Spec.BIP32.ser256 a = Spec.BIP32.ser256 b → a = b) ∧
+    (List.range' n (2 ^ 256 - n)).length = 2 ^ 256 - n ∧
+    (∀ v, v ∈ List.range' n (2 ^ 256 - n) ↔ n ≤ v ∧ v < n + (2 ^ 256 - n)) :=
+  ⟨fun IL hl => invalid_IL_iff n IL hl, fun _ _ ha hb h => ser256_injective ha hb h,
+    List.length_range', fun v => by simp [List.mem_range'_1]⟩
+
+/-- on secp256k1: fewer than 2¹²⁹ of the 2²⁵⁶ values of `I_L` are invalid — a fraction below 2⁻¹²⁷ -/
+theorem C09_ckd_invalid_count_secp256k1 :
+    2 ^ 256 - Pycoin.Gen.Curves.secp256k1.n < 2 ^ 129 ∧ (2 ^ 256 - Pycoin.Gen.Curves.secp256k1.n) * 2 ^ 127 < 2 ^ 256 := by
+  decide +kernel
+
 
 /-! ## non-vacuity: the hypotheses of the implications above hold on concrete inputs
 
